@@ -93,6 +93,8 @@ def gen_knobs(rng, prop, profile):
         "chunk": rng.choice([64, 1000, 4096, 8192, 100_000]),
         "bufsize": wchoice(rng, [(70, 8192), (15, 4096), (15, 65536)]),
         "evict_on_startup": rng.random() < 0.15,
+        "cache_dir": wchoice(rng, [(70, "cache"), (6, "products[v2]/cache"), (5, "my cache dir"), (5, "c*che?"),
+                                   (5, "data.d/cachefile_x_cachefile"), (5, "d\u00e9p\u00f4t/cache"), (4, "a/b/c/cache")]),
         "big_requests": big,
         "fine_grained": bool(profile.get("fine_grained", False)) or (big and rng.random() < 0.04),
     }
@@ -123,6 +125,16 @@ def gen_ops(rng, prop, knobs, profile):
             if not c19 and m >= 2 and rng.random() < (0.15 if m >= 6 else 0.04):
                 # the same uri twice in one request (in a big request: in different pool chunks)
                 op["keys"][-1] = op["keys"][rng.randrange(0, min(5, m - 1))]
+            if c19 and m >= 2 and rng.random() < 0.08:
+                # the same uri twice in one request, once without and once with the validate directive
+                a, b = sorted(rng.sample(range(m), 2))
+                op["keys"][b] = op["keys"][a]
+                op["val"] = [None] * m
+                first_plain = rng.random() < 0.7
+                op["val"][a] = not first_plain
+                op["val"][b] = first_plain
+            elif c19 and rng.random() < 0.06:
+                op["val"] = [rng.choice([None, None, True, False]) for _ in range(m)]
             if m == 1 and rng.random() < 0.3:
                 op["as_str"] = True
         elif kind in ("REMOVE", "TOUCH", "USER_READ"):
@@ -187,7 +199,9 @@ def gen_faults(rng, knobs, ops):
         op = ops[gi]
         cached = likely_cached_before(ops, gi)
         miss = [k for k in op["keys"] if k not in cached]
-        hit_val = [k for k in op["keys"] if k in cached and keys[k]["val"]]
+        ov = op.get("val") or []
+        hit_val = [k for pos, k in enumerate(op["keys"]) if k in cached and
+                   (ov[pos] if pos < len(ov) and ov[pos] is not None else keys[k]["val"])]
         if hit_val and rng.random() < 0.5:
             k = rng.choice(hit_val)
             faults.append({"op": op["id"], "kind": rng.choice(["VALIDATE_FALSE", "VALIDATE_IOERROR"]), "key": k})
